@@ -6,7 +6,7 @@ from fractions import Fraction as F
 import numpy as np
 
 from harness import gallina as g
-from harness.util import import_df, js, attempt
+from harness.util import import_df, js, attempt, relayout, LAYOUTS
 
 df = import_df()
 
@@ -117,7 +117,8 @@ def gen_spec(rng, n, allow_bad=False):
         ts = [rng.choice(TVALS) if rng.random() < 0.8 else F(rng.randint(0, 64), 8) for _ in range(ncell)]
         if rng.random() < 0.5:
             ts[rng.randrange(ncell)] = F(0)
-        return dict(kind="arr", ts=[S(t) for t in ts], form=rng.choice(["n", "n1", "list_n", "n1"]))
+        return dict(kind="arr", ts=[S(t) for t in ts], form=rng.choice(["n", "n1", "list_n", "n1"]),
+                    layout=rng.choice(LAYOUTS))
     if r < 0.72:
         return dict(kind="field", variant=rng.choice(["same", "larger", "larger", "coarser", "finer"]), todo=True)
     if r < 0.86:
@@ -409,6 +410,93 @@ def gen_dictspec(rng, tier):
                 bad=False, subregion=dict(ax=ax, x0=S(x0)))
 
 
+def full_mantissa(rng, e):
+    """a binary64 number in [2^e, 2^(e+1)) with a random 52-bit mantissa"""
+    return F(2 ** 52 + rng.getrandbits(52), 2 ** 52) * F(2) ** e
+
+
+def gen_wide(rng, tier):
+    """requested norms over a wide magnitude range, independent of the field's magnitude: huge fields set to
+    far larger norms, tiny fields to far smaller ones, ordinary fields to both; then the array is scaled back
+    in place by a power of two so that the result can be viewed"""
+    p1, p2, n = gen_mesh(rng, tier)
+    ncell = math.prod(n)
+    k = rng.choice([1, 2, 3, 3, 4])
+    regime = rng.choice(["over", "over", "under", "under", "mixed"])
+    if regime == "over":
+        e = rng.choice([480, 490, 490])
+        cells = [gen_cell_at(rng, k, e) for _ in range(ncell)]
+        te = rng.choice([540, 600, 700, 900, 1000, 1015])
+    elif regime == "under":
+        cells = []
+        for _ in range(ncell):
+            c = [F(0)] * k
+            if rng.random() > 0.1:
+                c[rng.randrange(k)] = F(rng.randint(1, 40) * rng.choice([-1, 1]), 2 ** 19)
+            cells.append(c)
+        te = rng.choice([-1020, -1019, -1018])
+    else:
+        e = rng.choice([-3, 0, 1, 7])
+        cells = [gen_cell_at(rng, k, e) for _ in range(ncell)]
+        te = rng.choice([-1000, -900, 900, 1000, 1015])
+    t0 = full_mantissa(rng, te) if rng.random() < 0.7 or regime == "under" else F(2) ** te
+    sk = rng.choice(["const", "arr", "step"])
+    if sk == "const":
+        spec = dict(kind="const", t=S(t0), form=rng.choice(["float", "npfloat"]))
+    elif sk == "arr":
+        ts = [rng.choice([t0, t0, t0 * 2, F(float(t0 * F(3, 2))), F(0)]) for _ in range(ncell)]
+        spec = dict(kind="arr", ts=[S(t) for t in ts], form=rng.choice(["n", "n1", "list_n"]), layout=rng.choice(LAYOUTS))
+    else:
+        spec = fix_step(dict(kind="step", ax=rng.randrange(len(n)), x0=None, lo=S(t0), hi=S(rng.choice([t0 * 2, F(0), t0]))),
+                        p1, p2, n, rng)
+    back = F(2) ** (-te - (10 if regime == "under" else 0))
+    in_ctor = rng.random() < 0.3
+    ops = ([] if in_ctor else [dict(op="setnorm", spec=spec)]) + [dict(op="inplace", w=dict(kind="scale", c=S(back)))]
+    if rng.random() < 0.3:
+        ops.append(dict(op="setnorm", spec=dict(kind="const", t=S(rng.choice([F(1), F(5), F(3, 4)])), form="float")))
+    vr = rng.random()
+    v0 = dict(kind="all", form="default") if vr < 0.6 else dict(kind="arr", l=[rng.random() < 0.7 for _ in range(ncell)])
+    return dict(kind="hist", mode="wide", p1=p1, p2=p2, n=n, nvdim=k, unit=rng.choice(UNITS), vals=flat(cells),
+                norm0=spec if in_ctor else None, v0=v0, ops=ops, bad=False, near=dict(spec=sk, regime=regime))
+
+
+def gen_cell_at(rng, k, e):
+    if rng.random() < 0.12:
+        return [F(0)] * k
+    return [F(x) * F(2) ** e for x in pyth(rng, k)]
+
+
+def gen_alias(rng, tier):
+    """norm specifications (and new values) that are views of / derived from the field's own storage"""
+    p1, p2, n = gen_mesh(rng, tier)
+    ncell = math.prod(n)
+    k = rng.choice([1, 2, 3, 3, 3, 4])
+
+    def cells():
+        return [[abs(x) for x in gen_cell(rng, k, "std")] for _ in range(ncell)]
+
+    ops = []
+    for j in range(rng.choice([1, 1, 2, 3])):
+        r = rng.random()
+        if r < 0.7:
+            src = rng.choice(["comp", "comp", "comp1", "revcomp", "abscomp", "valid", "validf", "normarr", "normfield",
+                              "compfield"])
+            ops.append(dict(op="setnorm", spec=dict(kind="own", src=src, j=rng.randrange(k))))
+        elif r < 0.85:
+            ops.append(dict(op="setnorm", spec=fix_step(gen_spec(rng, n), p1, p2, n, rng)))
+        else:
+            ops.append(dict(op="update", vals=[], form=rng.choice(["alias_rev", "alias_rev", "alias_self"]),
+                            via=rng.choice(["method", "setter"])))
+    # new values taken from the field's own storage come first: the data are then still the exact
+    # Pythagorean input (after a division the model could no longer take exact roots of them)
+    ops.sort(key=lambda o: 0 if o["op"] == "update" else 1)
+    vr = rng.random()
+    v0 = dict(kind="all", form="default") if vr < 0.4 else (
+        dict(kind="arr", l=[rng.random() < 0.7 for _ in range(ncell)]) if vr < 0.8 else dict(kind="norm"))
+    return dict(kind="hist", mode="alias", p1=p1, p2=p2, n=n, nvdim=k, unit=rng.choice(UNITS), vals=flat(cells()),
+                norm0=None, v0=v0, ops=ops, bad=False)
+
+
 INT_DTYPES = ["int8", "int16", "int32", "int64", "uint8", "uint16", "uint32", "uint64"]
 
 
@@ -534,6 +622,10 @@ def generate(rng, tier):
         cases.append(gen_inplace(rng, tier))
     for _ in range(20 if quick else 200):
         cases.append(gen_dictspec(rng, tier))
+    for _ in range(50 if quick else 600):
+        cases.append(gen_wide(rng, tier))
+    for _ in range(70 if quick else 900):
+        cases.append(gen_alias(rng, tier))
     for _ in range(3):
         cases.append(gen_intdtype(rng))
     for _ in range(3):
@@ -583,9 +675,9 @@ def py_spec(spec, n):
         if form == "flat_bad":
             return a
         if form == "n":
-            return a.reshape(*n)
+            return relayout(a.reshape(*n), spec.get("layout"))
         if form == "n1":
-            return a.reshape(*n, 1)
+            return relayout(a.reshape(*n, 1), spec.get("layout"))
         return a.reshape(*n).tolist()
     if kind == "affine":
         c0 = fl(spec["c0"])
@@ -696,13 +788,51 @@ def cells_frac(a, k):
     return [[F(x) for x in row] for row in np.asarray(a).reshape(-1, k).tolist()]
 
 
+def result_representable(v, s, t):
+    """every non-zero component of (t/|v|) v is a normal binary64 number (|.| in 2^-1020 .. 2^1023): the
+    requested norm itself may be anything ('all norm specifications'), only the field's lengths are bounded"""
+    if t == 0:
+        return True
+    if abs(t) > F(2) ** 1023:
+        return False
+    lim = s * F(1, 2 ** 2040)
+    return all(x == 0 or t * t * x * x >= lim for x in v)
+
+
+def own_spec(f, spec):
+    """norm specifications that alias (or are derived from) the target field's own storage; returns the
+    object to assign and the per-cell targets it holds at the time of the assignment"""
+    src, j = spec["src"], spec.get("j", 0)
+    if src == "comp":
+        obj = f.array[..., j]
+    elif src == "comp1":
+        obj = f.array[..., j:j + 1]
+    elif src == "revcomp":
+        obj = f.array[::-1, ..., j]
+    elif src == "abscomp":
+        obj = np.abs(f.array[..., j])
+    elif src == "valid":
+        obj = f.valid
+    elif src == "validf":
+        obj = f.valid.astype(float)
+    elif src == "normarr":
+        obj = f.norm.array
+    elif src == "normfield":
+        obj = f.norm
+    else:
+        obj = df.Field(f.mesh, nvdim=1, value=f.array[..., j])
+    vals = obj.array if isinstance(obj, df.Field) else obj
+    ts = [F(x) for x in np.array(vals, dtype=float).reshape(-1).tolist()]
+    return obj, ts
+
+
 def oracle_setnorm(before, after, ts, out):
     for v, v2, t in zip(before, after, ts):
         s = sumsq(v)
         if s == 0:
             if any(x != 0 for x in v2):
                 out.append("zero-cell-not-zero-after-norm")
-        elif in_range(s) and (t == 0 or LEN_MIN <= abs(t) <= LEN_MAX):
+        elif in_range(s) and result_representable(v, s, t):
             bad = scaled_ok(v, v2, t)
             if bad == "length":
                 out.append("set-norm-length")
@@ -792,6 +922,8 @@ def run_hist(c):
     st, f = attempt(lambda: df.Field(mesh, nvdim=k, value=init_arr.copy(), unit=c["unit"], **kw))
     rejected = st != "ok"
     nsetnorm = 0
+    broken = False
+    rt = {}          # values only known at run time (specifications / updates taken from the field itself)
     if not rejected:
         if c["norm0"] is not None:
             nsetnorm += 1
@@ -805,10 +937,17 @@ def run_hist(c):
             for nn, vb in zip(nv0, f.valid.reshape(-1).tolist()):
                 if (nn <= ATOL * (1 - F(1, 10 ** 9)) and vb) or (nn >= ATOL * (1 + F(1, 10 ** 9)) and not vb):
                     out.append("constructor-validity-not-from-final-norm")
-        for o in c["ops"]:
+        if not np.all(np.isfinite(f.array)):
+            out.append("set-norm-result-not-finite")
+            broken = True
+        for oi, o in enumerate([] if broken else c["ops"]):
             before = f.array.copy()
             if o["op"] == "setnorm":
-                sp = py_spec(o["spec"], n)
+                if o["spec"]["kind"] == "own":
+                    sp, own_ts = own_spec(f, o["spec"])
+                    rt[oi] = [S(t) for t in own_ts]
+                else:
+                    sp, own_ts = py_spec(o["spec"], n), None
                 st, _ = attempt(lambda: setattr(f, "norm", sp))
                 if st != "ok":
                     rejected = True
@@ -816,7 +955,26 @@ def run_hist(c):
                         out.append("rejected-norm-changed-values")
                     break
                 nsetnorm += 1
-                oracle_setnorm(cells_frac(before, k), cells_frac(f.array, k), spec_values(o["spec"], mesh), out)
+                if not np.all(np.isfinite(f.array)):
+                    out.append("set-norm-result-not-finite")
+                    broken = True
+                    break
+                oracle_setnorm(cells_frac(before, k), cells_frac(f.array, k),
+                               own_ts if own_ts is not None else spec_values(o["spec"], mesh), out)
+            elif o["op"] == "update" and o["form"] in ("alias_rev", "alias_self"):
+                # the new values are a view of the field's own storage
+                view = f.array[::-1] if o["form"] == "alias_rev" else f.array
+                new = np.array(view, copy=True)
+                rt[oi] = js(new.reshape(-1))
+                if o.get("via") == "method":
+                    st, _ = attempt(lambda: f.update_field_values(view))
+                else:
+                    st, _ = attempt(lambda: setattr(f, "array", view))
+                if st != "ok":
+                    rejected = True
+                    break
+                if not np.array_equal(f.array, new):
+                    out.append("update-from-own-view-not-verbatim")
             elif o["op"] == "update":
                 try:
                     new = arr_of(o["vals"], n, k, dt)
@@ -865,7 +1023,7 @@ def run_hist(c):
                     out.append("valid-setter-changed-values")
     # Gallina
     ops_c = []
-    for o in c["ops"]:
+    for oi, o in enumerate(c["ops"]):
         if o["op"] == "read":
             continue
         if o["op"] == "inplace":
@@ -883,8 +1041,12 @@ def run_hist(c):
                 stride = math.prod(n[1:])
                 ops_c.append(f"PWrite (WSlice {g.nat(w['i'] * stride)} {g.nat((w['i'] + 1) * stride)} {g.ql(w['v'])})")
             continue
-        if o["op"] == "setnorm":
+        if o["op"] == "setnorm" and o["spec"]["kind"] == "own":
+            ops_c.append(f"PSetNorm (SArr {g.ql(rt.get(oi, []))})")
+        elif o["op"] == "setnorm":
             ops_c.append(f"PSetNorm {coq_spec(o['spec'])}")
+        elif o["op"] == "update" and o["form"] in ("alias_rev", "alias_self"):
+            ops_c.append(f"PUpdate {g.ql(rt.get(oi, []))}")
         elif o["op"] == "update":
             ops_c.append(f"PUpdate {g.ql(o['vals'])}")
         else:
@@ -892,7 +1054,9 @@ def run_hist(c):
     head = (f'CHist {g.ql(c["p1"])} {g.ql(c["p2"])} {g.zl(n)} {g.nat(k)} {g.opt(c["unit"], g.s)} '
             f'{g.ql(c["vals"])} {"None" if c["norm0"] is None else "(Some " + coq_spec(c["norm0"]) + ")"} '
             f'{coq_vspec(v0)} {g.lst(ops_c)} ')
-    if rejected:
+    if broken:
+        rec.update(obs=dict(nonfinite=True), coq=None)
+    elif rejected:
         rec.update(obs=dict(rejected=True), coq=head + "None")
         if not c.get("bad"):
             out.append("well-formed-history-rejected")
